@@ -54,6 +54,26 @@ func f(committee []int, m map[int][]byte, tx *T) {
 		_ = committee[i+1]
 	}
 }
+type Role int
+const (
+	RA Role = 1
+	RB Role = 2
+)
+type fmtT struct{}
+func (fmtT) Errorf(f string, a ...interface{}) error { return nil }
+var fmt fmtT
+func chk(r Role) (bool, error) { return false, nil }
+func g() error {
+	_, err := chk(RA)
+	if err != nil {
+		return fmt.Errorf("%v: %w", RA, err)
+	}
+	_, err = chk(RA)
+	if err != nil {
+		return fmt.Errorf("%v: %w", RB, err)
+	}
+	return nil
+}
 `
 
 type astPkg struct {
@@ -277,6 +297,8 @@ func runC13(cx *CheckCtx) {
 	} else {
 		c1, c2 := ruleIndexSpace(ctl), ruleMapOrderWitness(ctl)
 		cx.decide(len(c1) == 2, "positive-control", "index-space", "the rule fires on the embedded example of the defect (2 uses) and not on the corrected loop", fmt.Sprintf("the index-space rule matched %d sites of its embedded positive example, expected 2: the rule is broken", len(c1)), "")
+		n3, c3 := ruleStatedConstant(ctl)
+		cx.decide(n3 == 2 && len(c3) == 1, "positive-control", "stated-constant", "the rule sees both embedded sites and fires on the contradictory one only", fmt.Sprintf("the stated-constant rule matched %d sites / %d findings on its embedded example, expected 2 / 1: the rule is broken", n3, len(c3)), "")
 		cx.decide(len(c2) == 1, "positive-control", "map-order-witness", "the rule fires on the embedded example (and not on the order-insensitive sum)", fmt.Sprintf("the map-order rule matched %d sites of its embedded positive example, expected 1: the rule is broken", len(c2)), "")
 	}
 	// D1, D2 on the real package
@@ -336,6 +358,102 @@ func runC13(cx *CheckCtx) {
 	checkStageOrder(cx, sp)
 	checkCacheInvalidation(cx, sp)
 	checkTxWindow(cx, sp)
+	// D9 stated belief: the typed constant a call is made with is the one its error wrap names
+	n, fsb := ruleStatedConstant(p)
+	cx.count("stated_constant_sites", n) // no floor: an error text need not name its constant; the positive control keeps the rule alive
+	for _, f := range fsb {
+		cx.violated("stated-constant", "deploy."+f.fn, f.what, w.pos(f.pos))
+	}
+	if len(fsb) == 0 {
+		cx.holds("stated-constant", "deploy", fmt.Sprintf("%d calls whose error wrap names a typed constant of the call: all agree", n))
+	}
+}
+
+// ruleStatedConstant: `…, err := f(C, …); if err != nil { … fmt.Errorf(…, C', …) }` with C
+// and C' constants of one defined (non-basic) type, e.g. a node role: the error
+// text states which constant the call was meant for. C ≠ C' is a contradiction
+// between the two (Engler's "stated belief"): one of them is a copy-paste slip.
+// Returns the number of sites where both sides name such a constant.
+func ruleStatedConstant(p *astPkg) (int, []finding) {
+	encl := enclosingFuncs(p.files)
+	var out []finding
+	n := 0
+	typedConsts := func(args []ast.Expr) map[string]map[string]ast.Expr {
+		res := map[string]map[string]ast.Expr{}
+		for _, e := range args {
+			tv, ok := p.info.Types[e]
+			if !ok || tv.Value == nil {
+				continue
+			}
+			nt, ok := tv.Type.(*types.Named)
+			if !ok {
+				continue
+			}
+			k := nt.String()
+			if res[k] == nil {
+				res[k] = map[string]ast.Expr{}
+			}
+			res[k][tv.Value.ExactString()] = e
+		}
+		return res
+	}
+	for _, f := range p.files {
+		ast.Inspect(f, func(nd ast.Node) bool {
+			blk, ok := nd.(*ast.BlockStmt)
+			if !ok {
+				return true
+			}
+			for i := 0; i+1 < len(blk.List); i++ {
+				as, ok := blk.List[i].(*ast.AssignStmt)
+				if !ok || len(as.Rhs) != 1 {
+					continue
+				}
+				call, ok := as.Rhs[0].(*ast.CallExpr)
+				if !ok {
+					continue
+				}
+				ifs, ok := blk.List[i+1].(*ast.IfStmt)
+				if !ok {
+					continue
+				}
+				be, ok := ifs.Cond.(*ast.BinaryExpr)
+				if !ok || be.Op != token.NEQ || types.ExprString(be.X) != "err" {
+					continue
+				}
+				in := typedConsts(call.Args)
+				if len(in) == 0 {
+					continue
+				}
+				ast.Inspect(ifs.Body, func(m ast.Node) bool {
+					ec, ok := m.(*ast.CallExpr)
+					if !ok || types.ExprString(ec.Fun) != "fmt.Errorf" {
+						return true
+					}
+					st := typedConsts(ec.Args)
+					for t, vals := range st {
+						want, ok := in[t]
+						if !ok {
+							continue
+						}
+						n++
+						for v, e := range vals {
+							if _, same := want[v]; !same {
+								var called []string
+								for _, we := range want {
+									called = append(called, types.ExprString(we))
+								}
+								sort.Strings(called)
+								out = append(out, finding{call.Pos(), encl[nd], fmt.Sprintf("%s is called with %s but its error wrap names %s: the call was meant for the other constant (copy-paste slip); the result is computed for the wrong %s", types.ExprString(call.Fun), strings.Join(called, ", "), types.ExprString(e), t)})
+							}
+						}
+					}
+					return true
+				})
+			}
+			return true
+		})
+	}
+	return n, out
 }
 
 // ---------- D8 shared transaction window ----------
